@@ -156,7 +156,7 @@ func TestC17(t *testing.T) {
 	}
 	r.Extra("grid_size", size)
 	// (b)(c) random hostile programs
-	r.Check(t, "hostile-random", r.N(4000, 400000), func(t *rapid.T) {
+	r.Check(t, "hostile-random", r.N(4000, 150000), func(t *rapid.T) {
 		src, family := gen.HostileRandom(t)
 		ci := rapid.IntRange(0, 2).Draw(t, "cfg")
 		c := &progCase{Files: []string{src}, Note: family}
@@ -186,7 +186,7 @@ func TestC17(t *testing.T) {
 	})
 	// (d) mutants of valid programs
 	avoid := knownAvoid("C17")
-	r.Check(t, "hostile-mutants", r.N(1500, 100000), func(t *rapid.T) {
+	r.Check(t, "hostile-mutants", r.N(1500, 40000), func(t *rapid.T) {
 		p := gen.GenProgram(t, gen.ProgOpts{Avoid: avoid, TypedConsts: true})
 		src := p.Src
 		for i := 0; i < rapid.IntRange(1, 3).Draw(t, "nmut"); i++ {
